@@ -8,6 +8,6 @@ for id in "${ids[@]}"; do
   prop=${id%%-*}
   [ -f seeded/$id/patch.diff ] || continue
   out=$(lib/try_seeded_copy.sh seeded/$id/patch.diff $prop quick 2>&1 | grep -v conda | grep "^rc=\|^check \|class=\|INFRA" | cut -c1-300)
-  { echo "\$ lib/try_seeded_copy.sh seeded/$id/patch.diff $prop quick   # $(date -u +%FT%TZ), harness $(git rev-parse --short HEAD)"; echo "$out"; } > seeded/$id/trial.txt
+  { echo "\$ lib/try_seeded_copy.sh seeded/$id/patch.diff $prop quick   # $(date -u +%FT%TZ), harness ${VERIF_HARNESS_ID:-$(git rev-parse --short HEAD)}"; echo "$out"; } > seeded/$id/trial.txt
   echo "$id $(echo "$out" | head -1) $(echo "$out" | grep -c 'class=') classes"
 done
